@@ -1751,6 +1751,29 @@ fn c08_rt_ip_auth_write_from_slice() {
     kani::cover!(true);
 }
 
+/// C08 "decoding those bytes returns an equal value": equality is the crate's own `==`. The header under test carries stale
+/// bytes behind its ICV (16 bytes set first, then 12), the decoded one does not: they must still compare equal. BOUNDED: as above.
+#[kani::proof]
+#[kani::unwind(20)]
+fn c08_rt_ip_auth_eq() {
+    let icv: [u8; 16] = kani::any();
+    let h = any_ah(&icv);
+    let w = ah_wire(&h, &icv);
+    match IpAuthHeader::from_slice(&w) {
+        Ok((v, _)) => {
+            assert!(v == h, "decode(encode(h)) does not compare equal to h");
+            assert!(h == v);
+        }
+        Err(_) => { assert!(false); }
+    }
+    // and two headers that differ in one ICV byte are not equal
+    let mut icv2 = icv;
+    icv2[3] = icv[3].wrapping_add(1);
+    let h2 = IpAuthHeader::new(h.next_header, h.spi, h.sequence_number, &icv2[..AH_K * 4]).unwrap();
+    assert!(h2 != h);
+    kani::cover!(true);
+}
+
 /// C08 bytes->value, IpAuthHeader::read gives the value back from its wire image. BOUNDED: as above.
 #[kani::proof]
 fn c08_rt_ip_auth_read() {
